@@ -1,4 +1,6 @@
 """C16 — a failed parse applies exactly the preceding statements; errors say where."""
+import contextlib
+import io
 import itertools
 import os
 import re
@@ -19,9 +21,16 @@ RULE = ('valid configs (bindings string or file, include trees to depth 3, 3-15 
         'cleared config given only the preceding statements (flattened prefix text), scope/lock/parse-context depth unchanged, a follow-up parse agrees in '
         'both worlds; semantic faults keep their class (real except clause) and name file/bindings-string + line once per include level, innermost '
         'first; syntax faults report a line inside the statement span. Plus provenance: "# Set in src:line:" equals the model\'s last setter. '
+        'Each fault is driven through one entry point {parse_config(str) / parse_config_file, parse_config(list of statements), parse_config(file object, '
+        'named or not), parse_config_files_and_bindings(first file, root, later file; bindings)} x {absolute / search-path-relative includes} x '
+        '{skip_unknown False / True / list} x {empty / non-empty config before} x {unlocked / locked + unlock_config()} x {once / twice in a row}, then '
+        'a follow-up {string, file, include, the corrected input} plus plain bind_parameter / query_parameter, compared with the prefix world; after the '
+        'failure the provenance comments of the applied prefix are compared with the last-setter model. One config in eight has a root file with '
+        'dynamic registration (own symbol table). Once per config: the valid config parsed successfully (provenance through includes) and parsed while '
+        'the config is locked (fails at the first binding statement, nothing changes, lock stays). '
         'quick samples positions, thorough enumerates every position x kind of each generated config. distinct = (config shape, position class, fault kind)')
 TIERS = {
-    'quick': {'workers': 8, 'cases': 60, 'timeout': 900, 'faults_per_config': 40, 'all_positions': False},
+    'quick': {'workers': 8, 'cases': 60, 'timeout': 900, 'faults_per_config': 36, 'all_positions': False},
     'thorough': {'workers': 16, 'cases': 100, 'timeout': 3400, 'faults_per_config': 0, 'all_positions': True},
 }
 FAULTS = {
@@ -33,7 +42,10 @@ FAULTS = {
     'bad-selector-empty-component': (['c16f..x = 1'], (SyntaxError,), False),
     'bad-selector-whitespace': (['a /c16f.x = 1'], (SyntaxError,), False),
     'unknown-parameter': (['c16f.nope = 1'], (ValueError,), True),
+    'unknown-parameter-scoped': (['sc/c16f.nope = 1'], (ValueError,), True),
     'unknown-configurable': (['c16_nosuch.x = 1'], (ValueError,), True),
+    # a block whose HEADER names no configurable: the header line is the offending statement, nothing of the block is applied
+    'unknown-block-header': (['c16_nosuch:', '  x = 1', "  y = 'never'"], (ValueError,), True),
     'unknown-reference': (['c16f.x = [1,', '  @c16_nosuch()]'], (ValueError,), True),
     'ambiguous-constant': (['c16f.x = %C16AMBIG'], (ValueError,), True),
     'denylisted-parameter': (['c16d.secret = 1'], (ValueError,), True),
@@ -53,10 +65,46 @@ MEMBER_FAULTS = {
     'member-missing-eq': (['x 1'], (SyntaxError,), False),
     'member-unknown-reference': (['y = @c16_nosuch'], (ValueError,), True),
 }
+# A file that enables dynamic registration has its own symbol table ("per-file import tables"): there the configurables are reached through an
+# imported module. Selectors of the generated statements / faults are rewritten for such a file; exception classes the existing oracle has not
+# established for this mode (NameError / AttributeError of the symbol lookup) are left open (any Exception).
+DYN_SEL = {'c16f': 'vfc16_dyn.g', 'm.c16f': 'vfc16_dyn.g', 'c16g': 'vfc16_dyn.h', 'c16d': 'vfc16_dyn.h'}
+DYN_HEADER = ['from __gin__ import dynamic_registration', 'import vfc16_dyn']
+DYN_OPEN_CLASS = ('unknown-configurable', 'unknown-block-header', 'unknown-reference', 'member-unknown-reference', 'dyn-unknown-attribute')
+DYN_ONLY_FAULTS = {'dyn-unknown-attribute': (['vfc16_dyn.nosuch.x = 1'], (Exception,), True)}
+DYN_EXCLUDED = ('denylisted-parameter',)     # the dynamically registered functions have no denylist
+
+# Ways to drive the faulty parse (entry point / shape of the input), states it starts from, what is tried afterwards.
+ENTRIES = ('plain', 'plain', 'plain', 'list-or-filelike', 'files-and-bindings')
+# skip_unknown=True turns these kinds into non-errors (or leaves open when the error is raised): never combined
+SKIP_TRUE_EXCLUDED = ('unknown-configurable', 'unknown-block-header', 'bad-import', 'unknown-reference', 'member-unknown-reference')
+SKIP_LIST_EXCLUDED = ('bad-import',)
+PRE_LINES = ["c16f.x = 'pre'", "sc/c16g.y = 'pre'", "c16mac = 'pre'"]
+PRE_KEYS = [('', 'c16f', 'x'), ('sc', 'c16g', 'y'), ('c16mac', 'gin.macro', 'value')]
+PRE_LINES_DYN = ["vfc16_dyn.g.x = 'pre'"]
+PRE_KEYS_DYN = [('', 'vfc16_dyn.g', 'x')]
+FIRST_FILE_LINES = ["c16g.z = 'first-file'", '', "c16f.x = 'first-file'"]
+FIRST_FILE_KEYS = [(1, ('', 'c16g', 'z')), (3, ('', 'c16f', 'x'))]
+LATER_FILE_LINES = ["later/c16f.x = 'later-file'"]
+CLI_BINDINGS = ["later/c16f.y = 'command-line'"]
+CANON_SEL = {'c16f': 'c16.m.c16f', 'm.c16f': 'c16.m.c16f', 'c16g': 'c16.m.c16g', 'c16d': 'c16.m.c16d', 'vfc16_dyn.g': 'vfc16_dyn.g', 'vfc16_dyn.h': 'vfc16_dyn.h',
+             'gin.macro': 'gin.macro'}
+
 REQUIRED_BUCKETS = (['fault:' + k for k in FAULTS] + ['fault:' + k for k in MEMBER_FAULTS] + ['fault:reader-raises', 'pos:first-statement', 'pos:end-of-file',
                     'pos:in-included-file', 'pos:depth3', 'pos:after-include', 'pos:after-block', 'pos:block-member-0', 'pos:block-member-k', 'pos:after-multiline-value',
                     'root:string', 'root:file', 'followup:compared', 'message:chain-2+', 'provenance:file', 'provenance:string', 'provenance:programmatic',
-                    'provenance:block-member', 'provenance:overwritten', 'provenance:macro', 'provenance:restated-same-value'])
+                    'provenance:block-member', 'provenance:overwritten', 'provenance:macro', 'provenance:restated-same-value',
+                    # entry points / shapes
+                    'entry:list', 'entry:filelike-named', 'entry:filelike-unnamed', 'entry:files-and-bindings:fault-in-file', 'entry:files-and-bindings:fault-in-bindings',
+                    'include:relative-to-search-path', 'skip-unknown:True', 'skip-unknown:list',
+                    # states the failing call starts from, fault sequences
+                    'pre:non-empty-config', 'pre:binding-overwritten-by-prefix', 'lock:failure-inside-unlock-config', 'lock:parse-while-locked',
+                    'seq:two-consecutive-failures', 'followup:string', 'followup:file', 'followup:include', 'followup:corrected-retry', 'followup:api-bind-and-query',
+                    # provenance after a failed parse / through includes
+                    'provenance:after-failed-parse', 'provenance:after-failed-parse:included-file', 'provenance:through-include',
+                    'provenance:includer-overrides-included', 'provenance:included-overrides-includer',
+                    # a file with its own import table
+                    'dynreg:fault-in-dynamic-registration-file', 'fault:dyn-unknown-attribute'])
 ORACLE_COUNTERS = ['oracle_evals', 'faults_injected', 'prefix_stores_compared', 'messages_checked', 'provenance_lines_checked']
 LOC = re.compile(r'In (?:file "([^"]*)",|(bindings string)) line (\d+)')
 _S = {}
@@ -76,14 +124,24 @@ def setup(ctx):
     probes.build(spec)
   gin.constant('p.C16AMBIG', 1)
   gin.constant('q.C16AMBIG', 2)
-  _S['root'] = tempfile.mkdtemp(prefix='vf-c16-')
+  # (thousands of small files are rewritten: a memory-backed directory where there is one)
+  shm = '/dev/shm' if (os.path.isdir('/dev/shm') and os.access('/dev/shm', os.W_OK | os.X_OK)) else None
+  _S['root'] = tempfile.mkdtemp(prefix='vf-c16-', dir=shm)
   import sys
   os.makedirs(os.path.join(_S['root'], 'py'))
   for mod, body in (('vfc16_fnf', "raise FileNotFoundError(2, 'No such file or directory', 'weights.bin')"), ('vfc16_perm', "raise PermissionError(13, 'Permission denied', 'secret.bin')"),
                     ('vfc16_exit', 'import sys\nsys.exit(3)'), ('vfc16_kbd', 'raise KeyboardInterrupt()')):
     open(os.path.join(_S['root'], 'py', mod + '.py'), 'w').write(body + '\n')
+  open(os.path.join(_S['root'], 'py', 'vfc16_dyn.py'), 'w').write(
+      'def g(x=0, y=0, z=0, secret=0):\n  return (x, y, z)\n\n\ndef h(x=0, y=0, z=0, secret=0):\n  return (x, y, z)\n')
   sys.path.insert(0, os.path.join(_S['root'], 'py'))
   _S['n'] = itertools.count()
+  # Which registrations a FAILING dynamic-registration statement leaves behind is not constrained: register both functions up front, so that
+  # every later world (failed parse / prefix only) sees the same registry.
+  gin.parse_config('\n'.join(DYN_HEADER + ['vfc16_dyn.g.x = 0', 'vfc16_dyn.h.x = 0']) + '\n')
+  gin.clear_config()
+  # relative include names are looked up under the registered search paths
+  gin.add_config_file_search_path(_S['root'])
 
 
 def finish(ctx):
@@ -132,13 +190,19 @@ def iter_cases(ctx, rng, n):
     if i % 6 == 5:
       yield gen_provenance(rng)
       continue
-    state = {'count': 0, 'files': {}}
+    dynreg = i % 8 == 3
+    # (a file with dynamic registration has its own symbol table: the flattened-prefix oracle cannot splice other files into it -> no includes)
+    state = {'count': 99 if dynreg else 0, 'files': {}}
     root = gen_file(rng, 0, 1, state)
     state['files'][0] = root
-    yield {'kind': 'faults', 'files': {str(k): v for k, v in state['files'].items()}, 'root_is_string': rng.random() < 0.4, 'seed': rng.randrange(1 << 30)}
+    case = {'kind': 'faults', 'files': {str(k): v for k, v in state['files'].items()}, 'root_is_string': rng.random() < 0.4, 'seed': rng.randrange(1 << 30)}
+    if dynreg:
+      root['items'][:0] = [['raw', l] for l in DYN_HEADER]
+      case['dynreg'] = True
+    yield case
 
 
-def vtext(v):
+def vtext(v, sel=None):
   """Returns list of lines for the value."""
   if v[0] == 'lit':
     if v[2]:
@@ -151,16 +215,18 @@ def vtext(v):
       return ['('] + ['    %r,  # c' % x for x in val] + [')']
     return [repr(v[1])]
   if v[0] == 'ref':
-    return ['@' + v[1] + ('()' if v[2] else '')]
+    return ['@' + (sel(v[1]) if sel else v[1]) + ('()' if v[2] else '')]
   return ['%' + v[1]]
 
 
 class Rendered:
   """Renders the file tree; records for every atom its file, first and last line, and the flattened order."""
 
-  def __init__(self, case, base, fault=None):
-    self.case, self.base, self.fault = case, base, fault
+  def __init__(self, case, base, fault=None, relinc=False):
+    self.case, self.base, self.fault, self.relinc = case, base, fault, relinc
+    self.dyn = bool(case.get('dynreg'))
     self.texts = {}
+    self.starts = {}    # fid -> first line of every top-level statement / comment / blank line / injected fault
     self.atoms = {}     # fid -> list of (item index, member index or None, start line, end line, flat text lines)
     self.fault_loc = None   # (fid, start line, end line)
     for fid in case['files']:
@@ -169,11 +235,31 @@ class Rendered:
   def path(self, fid):
     return os.path.join(self.base, 'f%s.gin' % fid)
 
+  def relpath(self, fid):
+    """The file's name relative to the search path registered in setup()."""
+    return os.path.relpath(self.path(fid), _S['root'])
+
+  def is_dyn(self, fid):
+    return self.dyn and fid == '0'
+
+  def key_of(self, fid, idx, mi):
+    """(scope, selector as written, parameter) bound by the atom, or None."""
+    it = self.case['files'][fid]['items'][idx]
+    sel = (lambda n: DYN_SEL[n]) if self.is_dyn(fid) else (lambda n: n)
+    if it[0] == 'bind':
+      return (it[1], sel(it[2]), it[3])
+    if it[0] == 'block':
+      return (it[1], sel(it[2]), it[3][mi][0])
+    if it[0] == 'macrodef':
+      return (it[1], 'gin.macro', 'value')
+    return None
+
   def render_file(self, fid):
     f = self.case['files'][fid]
     lines = []
     atoms = []
     fault = self.fault
+    sel = (lambda n: DYN_SEL[n]) if self.is_dyn(fid) else (lambda n: n)
 
     def put_fault(flines, indent=''):
       start = len(lines) + 1
@@ -181,19 +267,22 @@ class Rendered:
         lines.append(indent + l)
       self.fault_loc = (fid, start, len(lines))
 
+    starts = []
     for idx, it in enumerate(f['items']):
       if fault and fault['where'] == ('item', fid, idx):
+        starts.append(len(lines) + 1)
         put_fault(fault['lines'])
+      starts.append(len(lines) + 1)
       k = it[0]
       if k == 'bind':
-        vl = vtext(it[4])
-        key = (it[1] + '/' if it[1] else '') + it[2] + '.' + it[3]
+        vl = vtext(it[4], sel)
+        key = (it[1] + '/' if it[1] else '') + sel(it[2]) + '.' + it[3]
         start = len(lines) + 1
         lines.append(key + ' = ' + vl[0])
         lines.extend(vl[1:])
         atoms.append((idx, None, start, len(lines), [key + ' = ' + vl[0]] + vl[1:]))
       elif k == 'block':
-        hdr = (it[1] + '/' if it[1] else '') + it[2]
+        hdr = (it[1] + '/' if it[1] else '') + sel(it[2])
         lines.append(hdr + ':')
         for mi, (p, v) in enumerate(it[3]):
           if fault and fault['where'] == ('member', fid, idx, mi):
@@ -208,7 +297,7 @@ class Rendered:
           elif noise == 1:
             lines.append('')
             lines.append('      # another one, indented differently')
-          vl = vtext(v)
+          vl = vtext(v, sel)
           start = len(lines) + 1
           lines.append('  ' + p + ' = ' + vl[0])
           lines.extend(vl[1:])
@@ -222,27 +311,45 @@ class Rendered:
       elif k == 'import':
         lines.append('import ' + it[1])
         atoms.append((idx, None, len(lines), len(lines), [lines[-1]]))
+      elif k == 'raw':
+        lines.append(it[1])
+        atoms.append((idx, None, len(lines), len(lines), [lines[-1]]))
       elif k == 'include':
-        lines.append("include '%s'" % self.path(str(it[1])))
+        lines.append("include '%s'" % (self.relpath(str(it[1])) if self.relinc else self.path(str(it[1]))))
         atoms.append((idx, 'include', len(lines), len(lines), str(it[1])))
       elif k == 'comment':
         lines.append('# a comment line: c16f.x = [')
       else:
         lines.append('')
     if fault and fault['where'] == ('item', fid, len(f['items'])):
+      starts.append(len(lines) + 1)
       put_fault(fault['lines'])
     self.texts[fid] = '\n'.join(lines) + '\n'
     self.atoms[fid] = atoms
+    self.starts[fid] = starts
 
-  def write(self):
+  def as_list(self, fid='0'):
+    """The text as a list of individual statements (a block, a multi-line value, a comment line are one element each)."""
+    lines = self.texts[fid].split('\n')[:-1]
+    cuts = sorted(set(self.starts[fid]) | {1, len(lines) + 1})
+    return ['\n'.join(lines[a - 1:b - 1]) for a, b in zip(cuts, cuts[1:])]
+
+  def write(self, only=None):
+    # (files whose content on disk is already the wanted one are not rewritten: opening files dominates the cost of a fault otherwise)
+    disk = _S.setdefault('disk', {})
     for fid, t in self.texts.items():
-      with open(self.path(fid), 'w') as fh:
-        fh.write(t)
+      path = self.path(fid)
+      if (only is None or fid == only) and disk.get(path) != t:
+        with open(path, 'w') as fh:
+          fh.write(t)
+        disk[path] = t
 
   def prefix_lines(self, fid='0', chain=()):
     """Flattened text of everything applied before the fault. Returns (lines, done, chain) where chain lists (fid, line) innermost first."""
     out = []
     fault = self.fault
+    if not chain:
+      self.applied = []       # (fid, item index, member index, first line) of every statement applied before the fault, in order
     for (idx, mi, start, end, flat) in self.atoms[fid]:
       if fault and fault['where'][1] == fid:
         w = fault['where']
@@ -257,9 +364,21 @@ class Rendered:
           return out, True, ch
       else:
         out += flat
+        self.applied.append((fid, idx, mi, start))
     if fault and fault['where'][1] == fid:
       return out, True, [(fid, None)] + list(chain)
     return out, False, None
+
+  def first_binding(self, fid='0', chain=()):
+    """(fid, first line, [(fid, line) ...] include chain) of the first statement that binds something, in application order."""
+    for (idx, mi, start, end, flat) in self.atoms[fid]:
+      if mi == 'include':
+        got = self.first_binding(flat, [(fid, start)] + list(chain))
+        if got:
+          return got
+      elif self.key_of(fid, idx, mi) is not None:
+        return (fid, start, list(chain))
+    return None
 
 
 def positions(case):
@@ -275,7 +394,9 @@ def positions(case):
   out = []
   for fid in order:
     items = case['files'][fid]['items']
-    for idx in range(len(items) + 1):
+    # (in a dynamic-registration file the faults are written against its symbol table: only after the two header statements)
+    first = len(DYN_HEADER) if (case.get('dynreg') and fid == '0') else 0
+    for idx in range(first, len(items) + 1):
       cls = set()
       if idx == 0:
         cls.add('pos:first-statement')
@@ -303,6 +424,85 @@ def positions(case):
   return out
 
 
+def fault_spec(kind, where, dyn):
+  """(lines, exception classes, semantic?) of a fault kind at a position; `dyn`: the position lies in a dynamic-registration file."""
+  if kind == 'reader-raises':
+    return [], (ReaderFault,), True
+  if kind in DYN_ONLY_FAULTS:
+    return DYN_ONLY_FAULTS[kind]
+  lines, classes, semantic = (MEMBER_FAULTS if where[0] == 'member' else FAULTS)[kind]
+  if dyn:
+    lines = [l.replace('c16f', DYN_SEL['c16f']) for l in lines]
+    if kind in DYN_OPEN_CLASS:
+      classes = (Exception,)
+  return lines, classes, semantic
+
+
+def choose_mode(rng, case, where, kind, has_includes):
+  """How the faulty parse is driven, from which state, and what is tried afterwards (all decided by the case's own seed)."""
+  dyn = bool(case.get('dynreg'))
+  mode = {'entry': rng.choice(ENTRIES), 'relinc': has_includes and rng.random() < 0.3, 'pre': rng.random() < 0.2, 'unlock': rng.random() < 0.15,
+          'double': rng.random() < 0.1, 'followup': rng.choice(['string'] * 5 + ['file', 'include', 'corrected']), 'skip': False}
+  r = rng.random()
+  if not dyn and r < 0.25:
+    if r < 0.13 and kind not in SKIP_TRUE_EXCLUDED:
+      mode['skip'] = True
+    elif r >= 0.13 and kind not in SKIP_LIST_EXCLUDED:
+      mode['skip'] = ['c16_some_other_unknown', 'c16f']
+  if kind == 'reader-raises' and mode['entry'] == 'list-or-filelike':
+    mode['entry'] = 'plain'     # a file object opened by the caller does not go through the registered readers
+  return mode
+
+
+def read_provenance(text):
+  """{binding key as printed: 'src:line' from the '# Set in' comment directly above the binding's first line, or None}."""
+  lines = text.splitlines()
+  seen = {}
+  for i, l in enumerate(lines):
+    m = re.match(r'^([\w./]+) = ', l)
+    if m and not l.startswith('#'):
+      above = lines[i - 1] if i else ''
+      pm = re.match(r'^# Set in (.*):$', above)
+      seen[m.group(1)] = pm.group(1) if pm else None
+  return seen
+
+
+def printed_keys(key):
+  """The spellings under which config_str may print the binding (minimal selector; full selector when dynamic registration is on)."""
+  sc, selector, prm = key
+  if selector == 'gin.macro':
+    return [sc]
+  full = CANON_SEL.get(selector, selector)
+  pre = sc + '/' if sc else ''
+  return [pre + s + '.' + prm for s in dict.fromkeys([full.rsplit('.', 1)[-1], full])]
+
+
+def canon_key(key):
+  return (key[0], CANON_SEL[key[1]], key[2])
+
+
+def check_provenance(ctx, gin, setter, label, vkey):
+  """setter: {canonical key: set of acceptable 'src:line' strings}. Returns the text without its provenance comments."""
+  try:
+    text = gin.config_str(show_provenance=True)
+  except Exception as e:  # pylint: disable=broad-except
+    ctx.check(False, vkey, '%s: config_str(show_provenance=True) raised %r' % (label, e))
+    return 'RAISED %s' % type(e).__name__
+  check_provenance_text(ctx, text, setter, label, vkey)
+  return '\n'.join(l for l in text.split('\n') if not (l.startswith('# Set in ') and l.endswith(':')))
+
+
+def check_provenance_text(ctx, text, setter, label, vkey):
+  seen = read_provenance(text)
+  for key, want in setter.items():
+    ctx.count('provenance_lines_checked')
+    got = [seen[k] for k in printed_keys(key) if k in seen]
+    if not got:
+      ctx.check(False, 'provenance-binding-line-missing', '%s: binding %r not found in config_str(show_provenance=True):\n%s' % (label, key, text[:800]))
+      continue
+    ctx.check(got[0] in want, vkey, '%s: binding %r is attributed to %r, the statement that last set it is %r\n%s' % (label, key, got[0], sorted(want), text[:900]))
+
+
 def run_faults(ctx, case):
   import random
   import gin
@@ -310,10 +510,20 @@ def run_faults(ctx, case):
   rng = random.Random(case['seed'])
   base = os.path.join(_S['root'], 'c%d' % next(_S['n']))
   os.makedirs(base)
+  dyn = bool(case.get('dynreg'))
+  _S['disk'] = {}
   try:
+    for name, lines in (('first.gin', FIRST_FILE_LINES), ('later.gin', LATER_FILE_LINES), ('followup.gin', followup_lines(dyn))):
+      with open(os.path.join(base, name), 'w') as fh:
+        fh.write('\n'.join(lines) + '\n')
     plan = []
-    for where, cls, depth in positions(case):
+    pos = positions(case)
+    has_includes = any(w[1] != '0' for w, _, _ in pos)
+    for where, cls, depth in pos:
+      here_dyn = dyn and where[1] == '0'
       kinds = list(MEMBER_FAULTS) if where[0] == 'member' else list(FAULTS)
+      if here_dyn:
+        kinds = [k for k in kinds if k not in DYN_EXCLUDED] + ([] if where[0] == 'member' else list(DYN_ONLY_FAULTS))
       for kind in kinds:
         plan.append((where, cls, depth, kind))
       if where[0] == 'item':
@@ -326,24 +536,141 @@ def run_faults(ctx, case):
     ctx.bucket('root:string' if case['root_is_string'] else 'root:file')
     ctx.sample({'files': {k: v['items'][:5] for k, v in list(case['files'].items())[:3]}, 'root_is_string': case['root_is_string'],
                 'fault_plan_size': len(plan), 'example_fault': [list(plan[0][0]), plan[0][3]] if plan else None}, cap=2)
+    mrng = random.Random(case['seed'] ^ 0x5bd1e995)
     for where, cls, depth, kind in plan:
-      one_fault(ctx, case, base, where, cls, depth, kind, gin, gc)
+      one_fault(ctx, case, base, where, cls, depth, kind, gin, gc, choose_mode(mrng, case, where, kind, has_includes))
+    # once per config: the valid config parsed successfully (provenance through the include tree), and parsed while the config is locked
+    whole_config(ctx, case, base, gin, gc, relinc=has_includes and mrng.random() < 0.5)
+    locked_parse(ctx, case, base, gin, gc, relinc=has_includes and mrng.random() < 0.3, pre=mrng.random() < 0.6)
   finally:
     shutil.rmtree(base, ignore_errors=True)
+    gin.clear_config()
 
 
-def one_fault(ctx, case, base, where, cls, depth, kind, gin, gc):
+def followup_lines(dyn):
+  return ["c16f.z = 'followup'", 'c16g.x = @c16f()', "c16mac = 'later'"] + (["vfc16_dyn.g.z = 'followup'"] if dyn else [])
+
+
+def src_names(r, case, fid, unnamed_root=None):
+  """Acceptable names of a file in messages / provenance: its path (as given to the reader) or, for a relative include, the name as written."""
+  if fid == '0' and (case['root_is_string'] if unnamed_root is None else unnamed_root):
+    return [None]
+  if r.relinc and fid != '0':
+    return [r.path(fid), r.relpath(fid)]
+  return [r.path(fid)]
+
+
+def model_setters(r, case, applied, setter, unnamed_root=None, buckets=None):
+  """Adds the last setter of every applied statement to `setter` ({canonical key: set of 'src:line'})."""
+  from_file = {}
+  for (fid, idx, mi, start) in applied:
+    key = r.key_of(fid, idx, mi)
+    if key is None:
+      continue
+    key = canon_key(key)
+    if buckets is not None and key in from_file and (from_file[key] == '0') != (fid == '0'):
+      buckets.add('provenance:includer-overrides-included' if fid == '0' else 'provenance:included-overrides-includer')
+    from_file[key] = fid
+    setter[key] = {'%s:%d' % (n if n is not None else 'bindings string', start) for n in src_names(r, case, fid, unnamed_root)}
+  if buckets is not None and any(f != '0' for f in from_file.values()):
+    buckets.add('provenance:through-include')
+  return from_file
+
+
+def whole_config(ctx, case, base, gin, gc, relinc):
+  """The valid config, parsed successfully: every binding is attributed to the file and line of the statement that last set it."""
+  r = Rendered(case, base, None, relinc=relinc)
+  r.write()
+  r.prefix_lines()
+  label = 'whole config (root %s%s)' % ('string' if case['root_is_string'] else 'file', ', relative includes' if relinc else '')
+  gin.clear_config()
+  try:
+    if case['root_is_string']:
+      gin.parse_config(r.texts['0'])
+    else:
+      gin.parse_config_file(r.path('0'))
+  except Exception as e:  # pylint: disable=broad-except
+    ctx.check(False, 'valid-config-rejected', '%s: %r' % (label, e), {'texts': r.texts})
+    gin.clear_config()
+    return
+  setter, buckets = {}, set()
+  model_setters(r, case, r.applied, setter, buckets=buckets)
+  for b in buckets:
+    ctx.bucket(b)
+  if relinc:
+    ctx.bucket('include:relative-to-search-path')
+  check_provenance(ctx, gin, setter, label, 'provenance-differs-from-last-setter')
+  gin.clear_config()
+
+
+def locked_parse(ctx, case, base, gin, gc, relinc, pre):
+  """The valid config parsed while the config is locked: IF that fails, it fails at the first statement that binds something; nothing changes."""
+  r = Rendered(case, base, None, relinc=relinc)
+  r.write()
+  first = r.first_binding()
+  if first is None:
+    return
+  ffid, fstart, chain = first
+  label = 'parse while locked (root %s, first binding in f%s line %d)' % ('string' if case['root_is_string'] else 'file', ffid, fstart)
+  gin.clear_config()
+  if pre:
+    gin.parse_config('\n'.join(PRE_LINES) + '\n')
+  store_before = snap.store_nonempty(gc)
+  depth_before = len(gc._PARSE_CONTEXTS)
+  gin.finalize()
+  exc = original = None
+  try:
+    try:
+      gin.bind_parameter('c16f.x', 'locked?')     # the original exception type of a binding refused by the lock
+    except Exception as e:  # pylint: disable=broad-except
+      original = type(e)
+    if original is None:
+      return      # (the lock itself is another property's business)
+    try:
+      with gin.config_scope('outer/scope'):
+        try:
+          if case['root_is_string']:
+            gin.parse_config(r.texts['0'])
+          else:
+            gin.parse_config_file(r.path('0'))
+        except Exception as e:  # pylint: disable=broad-except
+          exc = e
+        scope_after = gin.current_scope()
+    except Exception as e:  # pylint: disable=broad-except
+      ctx.check(False, 'scope-changed-by-failed-parse', '%s: leaving the surrounding scope raised %r' % (label, e))
+      return
+    if exc is None:
+      ctx.bucket('lock:parse-while-locked-accepted')
+      return
+    ctx.bucket('lock:parse-while-locked')
+    ctx.count('faults_injected')
+    ctx.check(isinstance(exc, original), 'exception-class-changed', '%s: a refused binding raises %s, the parse raised %s: %s' % (label, original.__name__, type(exc).__name__, str(exc)[:300]))
+    ctx.check(gin.config_is_locked(), 'lock-changed-by-failed-parse', '%s: the config is unlocked after the failed parse' % label)
+    ctx.check(scope_after == ['outer', 'scope'] and gin.current_scope() == [], 'scope-changed-by-failed-parse', '%s: scope %r' % (label, scope_after))
+    ctx.check(len(gc._PARSE_CONTEXTS) == depth_before, 'parse-context-leaked', '%s: parse-context depth %d -> %d' % (label, depth_before, len(gc._PARSE_CONTEXTS)))
+    store_after = snap.store_nonempty(gc)
+    ctx.count('prefix_stores_compared')
+    ctx.check(store_after == store_before, 'store-differs-from-prefix', '%s: the failed parse changed the store: %r' % (label, snap.diff(store_after, store_before)), {'texts': r.texts})
+    ctx.count('messages_checked')
+    found = [(m.group(1) if m.group(1) is not None else None, int(m.group(3))) for m in LOC.finditer(str(exc))]
+    want = [(src_names(r, case, ffid), fstart)] + [(src_names(r, case, f), ln) for f, ln in chain]
+    ok = len(found) == len(want) and all(fn in wn and fl == wl for (fn, fl), (wn, wl) in zip(found, want))
+    ctx.check(ok, 'error-location-chain', '%s: message names %r, expected (innermost first) %r\n%s' % (label, found, want, str(exc)[-600:]))
+  finally:
+    with gin.unlock_config():
+      gin.clear_config()
+    gin.clear_config()
+
+
+def one_fault(ctx, case, base, where, cls, depth, kind, gin, gc, mode):
   fid = where[1]
+  dyn = bool(case.get('dynreg'))
   if kind == 'reader-raises':
     if case['root_is_string'] and fid == '0':
       return  # a bindings string has no reader
-    flines, exc_types, semantic = [], (ReaderFault,), True
-  elif where[0] == 'member':
-    flines, exc_types, semantic = MEMBER_FAULTS[kind]
-  else:
-    flines, exc_types, semantic = FAULTS[kind]
+  flines, exc_types, semantic = fault_spec(kind, where, dyn and fid == '0')
   fault = {'where': where, 'lines': flines, 'kind': kind}
-  r = Rendered(case, base, fault if kind != 'reader-raises' else {'where': where, 'lines': ['# reader fails before this line'], 'kind': kind})
+  r = Rendered(case, base, fault if kind != 'reader-raises' else {'where': where, 'lines': ['# reader fails before this line'], 'kind': kind}, relinc=mode['relinc'])
   r.write()
   ctx.count('faults_injected')
   ctx.bucket('fault:' + kind)
@@ -351,12 +678,47 @@ def one_fault(ctx, case, base, where, cls, depth, kind, gin, gc):
     ctx.bucket(c)
   ctx.fp(tuple(sorted((k, tuple(i[0] for i in v['items'])) for k, v in case['files'].items())), where[0], tuple(sorted(cls)), kind, case['root_is_string'])
   prefix, done, chain = r.prefix_lines()
+  applied = list(r.applied)
   assert done, 'fault not reached in flattening'
   ffid, fstart, fend = r.fault_loc
-  label = 'fault %s at %r (file f%s lines %d-%d, root %s)' % (kind, where, ffid, fstart, fend, 'string' if case['root_is_string'] else 'file')
+  entry, skip = mode['entry'], mode['skip']
+  root_string = case['root_is_string']
+  if entry == 'list-or-filelike':
+    entry = 'list' if (root_string and (fstart + len(prefix)) % 2) else 'filelike'
+  pcfab = entry == 'files-and-bindings'
+  label = 'fault %s at %r (file f%s lines %d-%d, root %s; entry %s%s%s%s%s%s)' % (
+      kind, where, ffid, fstart, fend, 'string' if root_string else 'file', entry, ', relative includes' if mode['relinc'] else '',
+      ', skip_unknown=%r' % (skip,) if skip else '', ', non-empty config before' if mode['pre'] else '',
+      ', locked + unlock_config()' if mode['unlock'] else '', ', attempted twice' if mode['double'] else '')
+  first_file = os.path.join(base, 'first.gin')
+  later_file = os.path.join(base, 'later.gin')
+  pre_lines = (PRE_LINES + (PRE_LINES_DYN if dyn else [])) if mode['pre'] else []
+  pre_keys = (PRE_KEYS + (PRE_KEYS_DYN if dyn else [])) if mode['pre'] else []
+  kw = {'skip_unknown': skip} if skip else {}
+
+  def drive():
+    if entry == 'plain':
+      if root_string:
+        gin.parse_config(r.texts['0'], **kw)
+      else:
+        gin.parse_config_file(r.path('0'), **kw)
+    elif entry == 'list':
+      gin.parse_config(r.as_list(), **kw)
+    elif entry == 'filelike':
+      if root_string:
+        gin.parse_config(io.StringIO(r.texts['0']), **kw)      # no name: a 'bindings string'
+      else:
+        with open(r.path('0')) as fh:
+          gin.parse_config(fh, **kw)
+    elif root_string:
+      gin.parse_config_files_and_bindings([first_file], r.as_list(), **kw)
+    else:
+      gin.parse_config_files_and_bindings([first_file, r.path('0'), later_file], CLI_BINDINGS, **kw)
 
   # ---- world A: the faulty parse
   gin.clear_config()
+  if pre_lines:
+    gin.parse_config('\n'.join(pre_lines) + '\n')
   depth_before = len(gc._PARSE_CONTEXTS)
   reader_installed = None
   if kind == 'reader-raises':
@@ -391,47 +753,125 @@ def one_fault(ctx, case, base, where, cls, depth, kind, gin, gc):
     gc._FILE_READERS[:] = [(reader, exists)] + saved
     reader_installed = saved
   exc = None
+  attempts = 2 if mode['double'] else 1
+  raised = 0
+  stack = contextlib.ExitStack()
+  if mode['unlock']:
+    gin.finalize()
+    stack.enter_context(gin.unlock_config())
   try:
-    with gin.config_scope('outer/scope'):
+    try:
+      with gin.config_scope('outer/scope'):
+        for _ in range(attempts):
+          try:
+            drive()
+          except exc_types as e:      # a real except clause with the original class
+            exc = e
+            raised += 1
+        scope_after = gin.current_scope()
+    except BaseException as e:  # pylint: disable=broad-except
+      ctx.check(False, 'exception-class-changed', '%s: expected %s, got %s: %s' % (label, [t.__name__ for t in exc_types], type(e).__name__, str(e)[:300]))
+      return
+    finally:
+      if reader_installed is not None:
+        gc._FILE_READERS[:] = reader_installed
+    if not ctx.check(raised == attempts, 'faulty-config-accepted', '%s: parse succeeded (%d of %d attempts raised)' % (label, raised, attempts)):
+      return
+    ctx.bucket({'plain': 'entry:plain', 'list': 'entry:list', 'filelike': 'entry:filelike-unnamed' if root_string else 'entry:filelike-named',
+                'files-and-bindings': 'entry:files-and-bindings:fault-in-bindings' if root_string else 'entry:files-and-bindings:fault-in-file'}[entry])
+    if mode['relinc']:
+      ctx.bucket('include:relative-to-search-path')
+    if skip:
+      ctx.bucket('skip-unknown:True' if skip is True else 'skip-unknown:list')
+    if mode['double']:
+      ctx.bucket('seq:two-consecutive-failures')
+    if mode['unlock']:
+      ctx.bucket('lock:failure-inside-unlock-config')
+    if dyn:
+      ctx.bucket('dynreg:fault-in-dynamic-registration-file')
+    store_a = snap.store_nonempty(gc)
+    ctx.check(scope_after == ['outer', 'scope'] and gin.current_scope() == [], 'scope-changed-by-failed-parse', '%s: scope %r' % (label, scope_after))
+    ctx.check(not gin.config_is_locked(), 'lock-changed-by-failed-parse', '%s: config locked' % label)
+    ctx.check(len(gc._PARSE_CONTEXTS) == depth_before, 'parse-context-leaked', '%s: parse-context depth %d -> %d' % (label, depth_before, len(gc._PARSE_CONTEXTS)))
+
+    # ---- provenance of what the failed call did apply (and of what it did not touch)
+    setter = {}
+    for i, k in enumerate(pre_keys):
+      setter[canon_key(k)] = {'bindings string:%d' % (i + 1)}
+    if pcfab:
+      for ln, k in FIRST_FILE_KEYS:
+        setter[canon_key(k)] = {'%s:%d' % (first_file, ln)}
+    before = set(setter)
+    unnamed_root = root_string      # (a list, an unnamed file object and the bindings of files-and-bindings are 'bindings string's too)
+    from_file = model_setters(r, case, applied, setter, unnamed_root)
+    if from_file:
+      ctx.bucket('provenance:after-failed-parse')
+      if any(f != '0' for f in from_file.values()):
+        ctx.bucket('provenance:after-failed-parse:included-file')
+    if mode['pre']:
+      ctx.bucket('pre:non-empty-config')
+      if before & set(from_file):
+        ctx.bucket('pre:binding-overwritten-by-prefix')
+    # (one serialisation serves both: the provenance comments, and - without them - the text compared with the prefix world's config_str())
+    cstr_a = check_provenance(ctx, gin, setter, label, 'provenance-after-failed-parse-differs-from-last-setter')
+
+    # ---- later parsing
+    followup = '\n'.join(followup_lines(dyn)) + '\n'
+    fu_file = os.path.join(base, 'followup.gin')
+    fu_kind = mode['followup']
+    corrected = Rendered(case, base, None, relinc=mode['relinc']) if fu_kind == 'corrected' else None
+
+    def later():
+      """What is done after the failure; the same in both worlds. Returns the outcome."""
+      out = []
       try:
-        if case['root_is_string']:
-          gin.parse_config(r.texts['0'])
+        if fu_kind == 'string':
+          gin.parse_config(followup)
+        elif fu_kind == 'file':
+          gin.parse_config_file(fu_file)
+        elif fu_kind == 'include':
+          gin.parse_config("c16g.y = 'before the include'\ninclude '%s'\nc16g.z = 'after the include'\n" % fu_file)
         else:
-          gin.parse_config_file(r.path('0'))
-      except exc_types as e:      # a real except clause with the original class
-        exc = e
-      scope_after = gin.current_scope()
-  except BaseException as e:  # pylint: disable=broad-except
-    ctx.check(False, 'exception-class-changed', '%s: expected %s, got %s: %s' % (label, [t.__name__ for t in exc_types], type(e).__name__, str(e)[:300]))
-    if reader_installed is not None:
-      gc._FILE_READERS[:] = reader_installed
-    return
+          # the same input again, corrected
+          corrected.write(only=ffid)
+          if root_string:
+            gin.parse_config(corrected.texts['0'])
+          else:
+            gin.parse_config_file(corrected.path('0'))
+        out.append(snap.store_nonempty(gc))
+      except Exception as e:  # pylint: disable=broad-except
+        out.append('RAISED %s' % type(e).__name__)
+      # plain API calls resolve names through the import table that is current outside any parse
+      for f in (lambda: gin.bind_parameter('a/b/m.c16f.x', ['api']), lambda: canon(gin.query_parameter('a/b/c16f.x'))):
+        try:
+          out.append(f())
+        except Exception as e:  # pylint: disable=broad-except
+          out.append('RAISED %s' % type(e).__name__)
+      out.append(snap.store_nonempty(gc))
+      return out
+
+    fa = later()
+    # (valid input, registered configurables, an unlocked config: in a fresh process none of these steps raises - also a guard against state
+    # that outlives clear_config() and would spoil the prefix world of this very process in the same way)
+    failed_steps = [x for x in fa if isinstance(x, str) and x.startswith('RAISED ')]
+    ctx.check(not failed_steps, 'later-call-fails-after-failed-parse', '%s: after the failed parse, a valid %s follow-up / plain bind_parameter / query_parameter raised: %r'
+              % (label, fu_kind, failed_steps))
+    ctx.bucket('followup:' + {'string': 'string', 'file': 'file', 'include': 'include', 'corrected': 'corrected-retry'}[fu_kind])
+    ctx.bucket('followup:api-bind-and-query')
   finally:
-    pass
-  if reader_installed is not None:
-    gc._FILE_READERS[:] = reader_installed
-  if not ctx.check(exc is not None, 'faulty-config-accepted', '%s: parse succeeded' % label):
-    return
-  store_a = snap.store_nonempty(gc)
-  cstr_a = snap._safe(gin.config_str)
-  ctx.check(scope_after == ['outer', 'scope'] and gin.current_scope() == [], 'scope-changed-by-failed-parse', '%s: scope %r' % (label, scope_after))
-  ctx.check(not gin.config_is_locked(), 'lock-changed-by-failed-parse', '%s: config locked' % label)
-  ctx.check(len(gc._PARSE_CONTEXTS) == depth_before, 'parse-context-leaked', '%s: parse-context depth %d -> %d' % (label, depth_before, len(gc._PARSE_CONTEXTS)))
-  followup = "c16f.z = 'followup'\nc16g.x = @c16f()\nc16mac = 'later'\n"
-  try:
-    gin.parse_config(followup)
-    fa = snap.store_nonempty(gc)
-  except Exception as e:  # pylint: disable=broad-except
-    fa = 'RAISED %r' % (e,)
+    stack.close()
 
   # ---- world B: a cleared config given only the preceding statements
   gin.clear_config()
+  if pre_lines:
+    gin.parse_config('\n'.join(pre_lines) + '\n')
+  if pcfab:
+    gin.parse_config('\n'.join(FIRST_FILE_LINES) + '\n')
   ptext = '\n'.join(prefix) + '\n'
   gin.parse_config(ptext)
   store_b = snap.store_nonempty(gc)
   cstr_b = snap._safe(gin.config_str)
-  gin.parse_config(followup)
-  fb = snap.store_nonempty(gc)
+  fb = later()
   ctx.count('prefix_stores_compared')
   if store_a != store_b:
     d = snap.diff(store_a, store_b)
@@ -447,25 +887,34 @@ def one_fault(ctx, case, base, where, cls, depth, kind, gin, gc):
     ctx.count('oracle_evals')
     ctx.bucket('followup:compared')
     # DESIGN X: which imports are *recorded* after a failed parse is not constrained -> compare without the import lines
-    strip = lambda t: '\n'.join(l for l in t.split('\n') if not (l.startswith('import ') or l.startswith('from '))).lstrip('\n')
-    cstr_a, cstr_b = strip(cstr_a), strip(cstr_b)
-    ctx.check(cstr_a == cstr_b, 'config-str-differs-from-prefix', '%s: config_str() after the failed parse differs from the prefix world:\n%s\n---\n%s' % (label, cstr_a[:700], cstr_b[:700]))
-    ctx.check(fa == fb, 'followup-parse-differs', '%s: a later parse gives a different configuration than in a fresh process with the prefix' % label)
+    # (with dynamic registration the recorded imports decide how selectors are spelled: no text comparison there)
+    if not dyn:
+      strip = lambda t: '\n'.join(l for l in t.split('\n') if not (l.startswith('import ') or l.startswith('from '))).lstrip('\n')
+      cstr_a, cstr_b = strip(cstr_a), strip(cstr_b)
+      ctx.check(cstr_a == cstr_b, 'config-str-differs-from-prefix', '%s: config_str() after the failed parse differs from the prefix world:\n%s\n---\n%s' % (label, cstr_a[:700], cstr_b[:700]))
+    if fa != fb:
+      what = [i for i, (x, y) in enumerate(zip(fa, fb)) if x != y]
+      ctx.check(False, 'followup-parse-differs', '%s: later parsing / binding (%s follow-up) behaves differently than in a fresh process with the prefix; differing steps %r: %r vs %r'
+                % (label, fu_kind, what, [fa[i] for i in what][:2], [fb[i] for i in what][:2]))
+    else:
+      ctx.count('oracle_evals')
 
   # ---- where the error says it happened
-  names = {f: (None if (f == '0' and case['root_is_string']) else r.path(f)) for f in case['files']}
+  unnamed = root_string
+  names = {f: src_names(r, case, f, unnamed) for f in case['files']}
+  same = lambda found, want: len(found) == len(want) and all(fn in wn and fl == wl for (fn, fl), (wn, wl) in zip(found, want))
   if semantic:
     ctx.count('messages_checked')
     found = [(m.group(1) if m.group(1) is not None else None, int(m.group(3))) for m in LOC.finditer(str(exc))]
     if kind == 'reader-raises':
       # the failing reader is reported by the including statements only
       want = [(names[f], ln) for f, ln in chain[1:]]
-      ctx.check(found == want, 'error-location-chain', '%s: message names %r, expected include chain %r' % (label, found, want))
+      ctx.check(same(found, want), 'error-location-chain', '%s: message names %r, expected include chain %r' % (label, found, want))
     else:
       want = [(names[chain[0][0]], fstart)] + [(names[f], ln) for f, ln in chain[1:]]
-      ok = found == want
+      ok = same(found, want)
       if not ok and kind in ('unknown-reference',) and len(found) == len(want):
-        ok = found[1:] == want[1:] and found[0][0] == want[0][0] and fstart <= found[0][1] <= fend
+        ok = same(found[1:], want[1:]) and found[0][0] in want[0][0] and fstart <= found[0][1] <= fend
       if len(want) >= 2:
         ctx.bucket('message:chain-2+')
       ctx.check(ok, 'error-location-chain', '%s: message names %r, expected (innermost first) %r\n%s' % (label, found, want, str(exc)[-600:]))
@@ -478,7 +927,8 @@ def one_fault(ctx, case, base, where, cls, depth, kind, gin, gc):
       hi = last if kind in ('unbalanced-open', 'tokenizer-fault-next-statement') else fend
       ctx.check(ln is not None and fstart <= ln <= hi, 'syntax-error-line-outside-statement',
                 '%s: SyntaxError.lineno=%r, statement spans lines %d-%d' % (label, ln, fstart, hi))
-      ctx.check(exc.filename == names[ffid], 'syntax-error-wrong-file', '%s: SyntaxError.filename=%r expected %r' % (label, exc.filename, names[ffid]))
+      if entry == 'plain' or not (root_string and ffid == '0'):
+        ctx.check(exc.filename in names[ffid], 'syntax-error-wrong-file', '%s: SyntaxError.filename=%r expected %r' % (label, exc.filename, names[ffid]))
     elif isinstance(exc, tokenize.TokenError):
       pos = exc.args[1] if len(exc.args) > 1 and isinstance(exc.args[1], tuple) else None
       ctx.check(pos is None or pos[0] >= fstart, 'syntax-error-line-outside-statement', '%s: TokenError position %r before line %d' % (label, pos, fstart))
@@ -603,12 +1053,17 @@ def run_case(ctx, case):
     run_provenance(ctx, case)
 
 
-LEVEL_TEXT = ('Fault enumeration at run time: for each generated config (include trees to depth 3) a faulty statement of each of 19 kinds is injected at '
+LEVEL_TEXT = ('Fault enumeration at run time: for each generated config (include trees to depth 3) a faulty statement of each of 26 kinds is injected at '
               'every statement position / block-member index / end of file (all of them in thorough, a sample in quick) and the real parser is run; '
               'the store after the failure is compared with the store of a cleared config given the flattened prefix, scope/lock/parse-context depth '
               'are compared, a follow-up parse is compared in both worlds, the exception class is checked with a real except clause and the message\'s '
-              'location chain / SyntaxError.lineno against the renderer\'s line numbers; provenance comments are compared with a last-setter model.')
+              'location chain / SyntaxError.lineno against the renderer\'s line numbers; provenance comments are compared with a last-setter model '
+              '(after successful histories, after every failed parse, through include trees). The entry point (string / file / list / file object / '
+              'parse_config_files_and_bindings), include spelling, skip_unknown, the state before the call (non-empty, locked + unlock_config), '
+              'repetition and the kind of follow-up vary per fault (sampled by the case seed, not enumerated).')
 LEVEL_NOTE = ('Trusted: the renderer\'s line bookkeeping and prefix flattening. Recorded imports after a failed parse are not constrained; for unknown '
-              'references inside multi-line values any line of the statement span is accepted (DESIGN X).')
+              'references inside multi-line values any line of the statement span is accepted (DESIGN X). Under dynamic registration the class of '
+              'symbol-lookup errors is left open and config_str texts are not compared; a relative include may be named as written or by its path; '
+              'parsing while locked is only judged if it fails (that it must fail is not this property).')
 TECHNIQUE = 'runtime fault injection at every statement position x fault kind with a prefix (metamorphic) oracle'
 DESIGN_REF = 'DESIGN.md section 4, C16'
